@@ -9,7 +9,7 @@
 #include <string>
 namespace vs {
 // kinds of scheduling points / step events
-enum Kind { K_LOAD=0, K_STORE=1, K_XCHG=2, K_CAS=4, K_FADD=5, K_FSUB=6, K_FBIT=7, K_FENCE=8,
+enum Kind { K_LOAD=0, K_STORE=1, K_XCHG=2, K_CAS=4, K_FADD=5, K_FSUB=6, K_FBIT=7, K_FENCE=8, K_POST=9,
             K_YIELD=10, K_SPAWN=11, K_MLOCK=12, K_MUNLOCK=13, K_CSIGNAL=14, K_CWAIT=15, K_JOIN=16,
             K_KILL=17, K_SIGNAL=18, K_USER=20 };
 struct Event { int t; int kind; const void* addr; uint64_t a, b; int ok; int ord; const char* name; };
@@ -17,8 +17,10 @@ struct Event { int t; int kind; const void* addr; uint64_t a, b; int ok; int ord
 void sched_point(const void* addr, int kind, int ord) noexcept;            // before every atomic access / blocking call
 void log_event(int kind, const void* addr, uint64_t a, uint64_t b, int ok, int ord) noexcept; // after it
 void user_event(const char* name, const void* p) noexcept;                  // CDS_VERIF_EVENT
-extern bool g_post_store_points;                                            // drivers of lock-like code set this: a store is followed by a second scheduling point, so that plain
-                                                                            // accesses placed (wrongly) after an unlocking store can be interleaved with other threads
+extern bool g_post_store_points;                                            // see post_point()
+void post_point() noexcept;                                                 // second scheduling point *after* an atomic write: lets plain accesses that (wrongly) follow an
+                                                                            // unlocking / publishing write interleave with other threads.  random / pct / replay: always a
+                                                                            // switch opportunity; dfs: a branching decision only if g_post_store_points is set (lock-like drivers)
 bool weak_cas_spurious() noexcept;                                          // strategy may inject a spurious weak-CAS failure
 int  self() noexcept;                                                       // scheduler thread index (0 = root) or -1
 bool active() noexcept;
